@@ -106,10 +106,11 @@ type ContractFile struct {
 	Specs   []*SpecFunc
 	Globals []*Clause
 	Axioms  []*Clause
+	Guarded []guardedField
 	Imports map[string]string
 }
 
-var clauseKeywords = map[string]bool{"func": true, "spec": true, "lemma": true, "global": true, "import": true, "axiom": true,
+var clauseKeywords = map[string]bool{"func": true, "spec": true, "lemma": true, "global": true, "import": true, "axiom": true, "guarded": true,
 	"pure": true, "requires": true, "ensures": true, "modifies": true, "let": true, "letpost": true, "loop": true, "trusted": true,
 	"use": true, "panics": true}
 
@@ -192,6 +193,24 @@ func parseContractText(path, pkgPath, text string) (*ContractFile, error) {
 			}
 			sf.PkgPath, sf.File, sf.Line = pkgPath, path, rc.line
 			cf.Specs = append(cf.Specs, sf)
+			cur = nil
+		case "guarded":
+			// guarded (Type).field by lockField   |   guarded variable by lockVariable
+			f := strings.Fields(rest)
+			if len(f) < 3 || len(f) > 4 || f[1] != "by" || (len(f) == 4 && f[3] != "insertonly") {
+				return nil, fail(fmt.Errorf("guarded <(Type).field | variable> by <lock> [insertonly]"))
+			}
+			g := guardedField{PkgPath: pkgPath, Lock: f[2], InsertOnly: len(f) == 4}
+			if strings.HasPrefix(f[0], "(") {
+				i := strings.Index(f[0], ").")
+				if i < 0 {
+					return nil, fail(fmt.Errorf("guarded (Type).field"))
+				}
+				g.Type, g.Field = strings.TrimPrefix(f[0][1:i], "*"), f[0][i+2:]
+			} else {
+				g.Field = f[0]
+			}
+			cf.Guarded = append(cf.Guarded, g)
 			cur = nil
 		case "axiom":
 			lab, etxt := splitLabel(rest)
